@@ -7,15 +7,16 @@ import common as C
 
 PID = "C04"
 DRIVER = [("C04", "TfPwaV.Gen.SpinlessF", "SpinlessF.handle")]
-LEAN_TARGETS = ["TfPwaV.Props.C04", "TfPwaV.Props.C04b", "TfPwaV.Gen.SpinlessF"]
-PROP_MODULES = ["TfPwaV.Props.C04", "TfPwaV.Props.C04b"]
-ALL_MODULES = ["TfPwaV.Props.C04", "TfPwaV.Props.C04b", "TfPwaV.Proofs.AngleBeta", "TfPwaV.Proofs.Angle", "TfPwaV.Proofs.Cascade", "TfPwaV.Proofs.CascadeAngle", "TfPwaV.Proofs.Kin", "TfPwaV.Proofs.Spinless", "TfPwaV.Props.C15", "TfPwaV.Proofs.LineShape", "TfPwaV.Proofs.ScalarR"]
+LEAN_TARGETS = ["TfPwaV.Props.C04", "TfPwaV.Props.C04b", "TfPwaV.Props.C04c", "TfPwaV.Gen.SpinlessF"]
+PROP_MODULES = ["TfPwaV.Props.C04", "TfPwaV.Props.C04b", "TfPwaV.Props.C04c"]
+ALL_MODULES = ["TfPwaV.Props.C04", "TfPwaV.Props.C04b", "TfPwaV.Props.C04c", "TfPwaV.Proofs.AmpSpinless", "TfPwaV.Proofs.Amp", "TfPwaV.Proofs.FrameAlg", "TfPwaV.Proofs.UnitaryMix", "TfPwaV.Props.C12", "TfPwaV.Props.C11", "TfPwaV.Proofs.Wigner", "TfPwaV.Proofs.AngleBeta", "TfPwaV.Proofs.Angle", "TfPwaV.Proofs.Cascade", "TfPwaV.Proofs.CascadeAngle", "TfPwaV.Proofs.Kin", "TfPwaV.Proofs.Spinless", "TfPwaV.Props.C15", "TfPwaV.Proofs.LineShape", "TfPwaV.Proofs.ScalarR"]
 ASSUMPTIONS = [
     "theorems are over the reals for resonance spin J <= 4 (the bound of the property); the Float instance of the same template text is what is compared with the implementation, rel. tol 1e-9 of the scale (sum_k |A_k|)^2; events with max(M^2/q^2, M^2/p^2) > 1e5 (a break-up momentum below 3e-3 of the parent mass) are counted as ill-conditioned and skipped",
     "the helicity angle: Props/C04b.helicity_angle_is_boost_angle proves, for ALL final four-momenta outside cross_unit's degenerate fallback (|z x w| >= 1e-14, |z| >= 1e-14), that the polar angle which the Lean model of cal_angle.py (CascadeR.calAngle: infer_momentum, cal_chain_boost, cal_helicity_angle / angle_zx_z_getx, the model C11 ties to the implementation) returns for R -> a b has cos(beta) = the boost-defined cos(theta) of the closed form (SpinlessR.chainKin); that the IMPLEMENTATION's beta equals the model's is the C11 cascade correspondence plus, here, a direct comparison of cos(beta) and of the density on every event, and independently a numpy evaluation from Lorentz invariants only",
     "exact Clebsch-Gordan values / small-d weights are those of Model/Wigner.lean, tied to tf_pwa.cg / tf_pwa.dfun by the C12 check; here additionally HelicityDecay.get_cg_matrix() of every generated decay is compared with the model entry by entry",
     "the numpy reference (search) is restricted to resonances whose nominal mass lies inside the kinematically allowed interval (m_a+m_b, M-m_c) where the textbook closed form is defined; nominal masses outside it (q0^2 < 0, guard branches of Bprime_q2 / Gamma) are covered by the correspondence with the code-shaped model only",
     "line shape, barrier factors: theorems of C15 about templates/LineShape.lean.in are reused (BWR_eq_spec, BprimeQ2_eq_Bprime)",
+    "Props/C04c: spinless_reduction identifies SpinlessR.helAmp with the GENERAL amplitude-tensor model AmpR.Chain.amp (templates/Amp.lean.in, the model whose Float instance the C01 check compares per helicity component with DecayChain.get_amp / DecayGroup.get_amp / sum_amp) on the two-vertex chain built with the general model's own constructors, one (l,s) pair per vertex and g_ls = 1, for every J; that the general model agrees with amp/core.py on spin-0 cards is validated by this check's own differential run (Float instance of Spinless) and on spinning cards by C01",
 ]
 
 PERMS = [(0, 1, 2), (1, 0, 2), (1, 2, 0), (2, 1, 0), (0, 2, 1), (2, 0, 1)]
@@ -557,7 +558,7 @@ def replay(ctx, payload):
 
 
 MANIFEST = {
-    "text": "Lean theorems over the reals, for every resonance spin J <= 4 and all real masses, widths, couplings, momenta and angles: the chain formula of tf_pwa.amp.core specialised to spin-0 external particles (LS->helicity factor sqrt((2l+1)/(2J+1)) CG CG with the exact Clebsch-Gordan values of C12, D^{0*} D^{J*} contraction over the helicity of the resonance with the zero padding of Dfun_delta_v2, exact small-d weights) equals the closed form c (-1)^J p^J B_J(p) q^J B_J(q) BW(m) P_J(cos theta) (spinless_closed_form); the (-1)^J and the absence of a sqrt(2J+1) are derived from the exact CG values (ls_factor_parent, ls_factor_resonance), d^J_00(theta) = P_J(cos theta) as a polynomial identity in sin/cos of theta/2 (d00_legendre), Legendre parity (daughter order), and with the C15 theorems the closed form is written with the documented 1/(m0^2-m^2-i m0 Gamma(m)). The polar helicity angle of the vertex R -> a b as the Lean model of cal_angle.py computes it (infer_momentum, cal_chain_boost, angle_zx_z_getx with cross_unit) satisfies cos(beta) = the boost-defined cos(theta) of the closed form for ALL final four-momenta outside cross_unit's degenerate fallback (helicity_angle_is_boost_angle, Props/C04b). The same template text instantiated at Float is compared with ConfigLoader(dict).get_amplitude()(data) on seeded configurations and events.",
+    "text": "Lean theorems over the reals, for every resonance spin J <= 4 and all real masses, widths, couplings, momenta and angles: the chain formula of tf_pwa.amp.core specialised to spin-0 external particles (LS->helicity factor sqrt((2l+1)/(2J+1)) CG CG with the exact Clebsch-Gordan values of C12, D^{0*} D^{J*} contraction over the helicity of the resonance with the zero padding of Dfun_delta_v2, exact small-d weights) equals the closed form c (-1)^J p^J B_J(p) q^J B_J(q) BW(m) P_J(cos theta) (spinless_closed_form); the (-1)^J and the absence of a sqrt(2J+1) are derived from the exact CG values (ls_factor_parent, ls_factor_resonance), d^J_00(theta) = P_J(cos theta) as a polynomial identity in sin/cos of theta/2 (d00_legendre), Legendre parity (daughter order), and with the C15 theorems the closed form is written with the documented 1/(m0^2-m^2-i m0 Gamma(m)). The polar helicity angle of the vertex R -> a b as the Lean model of cal_angle.py computes it (infer_momentum, cal_chain_boost, angle_zx_z_getx with cross_unit) satisfies cos(beta) = the boost-defined cos(theta) of the closed form for ALL final four-momenta outside cross_unit's degenerate fallback (helicity_angle_is_boost_angle, Props/C04b). The specialised formula is the GENERAL amplitude-tensor model of amp/core.py (templates/Amp.lean.in: CG tables, barrier factors, D-function tables with the Dfun_delta_v2 gather, einsum over the resonance helicity, sum over chains, helicity-summed density) on the two-vertex chain with spin-0 external particles, for every resonance spin J without bound, both daughter orders, all couplings, momenta, line-shape values and angles (spinless_reduction, Props/C04c), so that for J <= 4 the general model itself gives the closed form and the density |sum_k closed_k|^2 (general_model_closed_form, general_model_spinless_density). The same template text instantiated at Float is compared with ConfigLoader(dict).get_amplitude()(data) on seeded configurations and events.",
     "note": "Model = templates/Spinless.lean.in (closed form from the three four-momenta by explicit boosts + code-shaped helicity formula) on top of templates/Kin, templates/LineShape, Model/Wigner. Tie = differential run: density, get_cg_matrix entries, masses / |q|2 / cos(beta) seen by the implementation vs the Float model (rel. 1e-9 of (sum|A_k|)^2, events with a break-up momentum < 3e-3 M skipped and counted). Search = independent numpy evaluation of the closed form from Lorentz invariants only (no boosts, explicit Legendre polynomials) vs the implementation. The helicity angle of the cal_angle MODEL (templates/Cascade, tied to the implementation by C11) equals the boost-defined angle by theorem (C04b); that the implementation's own beta equals it is validated on every event. NOT verified: Float rounding.",
     "technique": "Lean 4 proof over the reals (exact kernel-evaluated Clebsch-Gordan / Wigner-d tables + algebra) of one template instantiated at Float for differential correspondence with the implementation; independent numpy oracle",
 }
